@@ -66,6 +66,6 @@ impl OpaqueIpcMessage {
 // `regions.into_iter().map(Some).collect()` (D29): same elements, same order, each wrapped
 #[verifier::external_body]
 pub fn wrap_some<T>(v: Vec<T>) -> (r: Vec<Option<T>>)
-    ensures r@.len() == v@.len(), forall|i: int| 0 <= i < v@.len() ==> r@[i] == Some(v@[i])
+    ensures r@ == wrapped(v@)
 { v.into_iter().map(Some).collect() }
 pub open spec fn wrapped<T>(s: Seq<T>) -> Seq<Option<T>> { Seq::new(s.len(), |i: int| Some(s[i])) }
